@@ -45,7 +45,10 @@ def make_model(pid, mid):
     g = grid_()
     r = zoo.rng('c12', pid, mid)
     sh = tuple(g.shape_cells)
-    if pid in ('P1', 'P3'):
+    if pid == 'P4':      # heterogeneous magnetic permeability (forward only)
+        return emg3d.Model(g, 10**r.uniform(-1, 0.5, sh),
+                           mu_r=r.uniform(0.6, 2.5, sh))
+    if pid in ('P1', 'P3', 'P4'):
         return emg3d.Model(g, 10**r.uniform(-1, 0.5, sh))
     return emg3d.Model(g, r.uniform(-1, 0.5, sh), r.uniform(-1, 0.5, sh),
                        r.uniform(-1, 0.5, sh), mapping='LgConductivity')
@@ -53,7 +56,7 @@ def make_model(pid, mid):
 
 def make_survey(pid):
     import emg3d
-    if pid in ('P1', 'P3'):
+    if pid in ('P1', 'P3', 'P4'):
         srcs = [emg3d.TxElectricDipole((-60., 20., -200., 30., 10.))]
         freqs = [1.0, 2.5]
     else:
@@ -76,13 +79,13 @@ def make_survey(pid):
 
 
 def solver_opts(pid):
-    if pid in ('P1', 'P3'):
+    if pid in ('P1', 'P3', 'P4'):
         return {'tol': 1e-10}
     return {'tol': 1e-10, 'tol_gradient': 1e-5}
 
 
 def gtol(pid):
-    return RTOL if pid in ('P1', 'P3') else 2e-3
+    return RTOL if pid in ('P1', 'P3', 'P4') else 2e-3
 
 
 NOISE = {'n1': (1e-13, 0.05), 'n2': (4e-13, 0.11)}
@@ -93,7 +96,7 @@ def new_sim(pid, mid, file_dir=None, nid='n1'):
     survey = make_survey(pid)
     survey.noise_floor, survey.relative_error = NOISE[nid]
     gkw = {'gridding': 'same'}
-    if pid == 'P3':
+    if pid in ('P3', 'P4'):
         # a user-given computational grid other than the model grid (same
         # number of cells): model and fields pass through the interpolation
         hs = [np.array([100., 115, 95, 120])*s_ for s_ in (1.1, 1.0, 1.05)]
@@ -113,7 +116,7 @@ def new_sim(pid, mid, file_dir=None, nid='n1'):
 def vectors(pid):
     sim_shape = tuple(grid_().shape_cells)
     r = zoo.rng('c12', 'vec', pid)
-    n = 1 if pid in ('P1', 'P3') else 3
+    n = 1 if pid in ('P1', 'P3', 'P4') else 3
     v = r.standard_normal((n,) + sim_shape)
     if n == 1:
         v = v[0]
@@ -133,6 +136,11 @@ def fresh(pid, mid, nid='n1'):
         s.compute()
         out['synthetic'] = np.array(s.data.synthetic.data)
         out['misfit'] = float(s.misfit)
+        if pid == 'P4':           # gradient / J not implemented for mu_r
+            src, freq = s._srcfreq[0]
+            out['efield'] = np.array(s.get_efield(src, freq).field)
+            out['hfield'] = np.array(s.get_hfield(src, freq).field)
+            return out
         out['gradient'] = np.array(s.gradient)
         src, freq = s._srcfreq[0]
         out['efield'] = np.array(s.get_efield(src, freq).field)
@@ -228,6 +236,8 @@ def apply(op, st, ref, viol, pid):
     def V(cls, what):
         viol.append({'cls': cls, 'what': what})
 
+    if pid == 'P4' and op in ('gradient', 'jvec', 'jtvec'):
+        return False       # documented: not implemented for mu_r != 1
     if op == 'compute':
         S.compute()
     elif op == 'misfit':
@@ -311,7 +321,8 @@ def apply(op, st, ref, viol, pid):
         # the model OBJECT stays, its arrays are overwritten in place
         st['mid'] = op.split(':')[1]
         m2 = make_model(pid, st['mid'])
-        for name in ('property_x', 'property_y', 'property_z'):
+        for name in ('property_x', 'property_y', 'property_z', 'mu_r',
+                     'epsilon_r'):
             if getattr(S.model, name) is not None:
                 getattr(S.model, name)[...] = getattr(m2, name)
         S.clean('all')
@@ -376,6 +387,9 @@ def case(c):
                                      'what': 'stored synthetic data: ' +
                                      _diff(syn[fin], ref['synthetic'][fin])})
                     apply('misfit', st, ref, viol, pid)
+                    if pid == 'P4':      # magnetic field asked for twice
+                        apply('get_hfield', st, ref, viol, pid)
+                        apply('get_hfield', st, ref, viol, pid)
                     apply('gradient', st, ref, viol, pid)
                     syn = np.array(S.data.synthetic.data)
                     if not close(syn, ref['synthetic'], RTOL):
@@ -431,10 +445,11 @@ def run(ctx):
     plans = [('P1-memory', 'P1', False, 3 if q else 4),
              ('P2-memory', 'P2', False, 2 if q else 3),
              ('P1-file_dir', 'P1', True, 2 if q else 3),
-             ('P3-input-grid', 'P3', False, 2 if q else 3)]
+             ('P3-input-grid', 'P3', False, 2 if q else 3),
+             ('P4-mu_r-input-grid', 'P4', False, 2 if q else 3)]
     budget = ctx.budget or (960 if q else 6000)
     share = {'P1-memory': 0.4, 'P2-memory': 0.2, 'P1-file_dir': 0.2,
-             'P3-input-grid': 0.2}
+             'P3-input-grid': 0.2, 'P4-mu_r-input-grid': 0.2}
     for name, pid, fm, depth in plans:
         if not ctx.wants(name):
             continue
